@@ -14,6 +14,13 @@ import (
 
 func main() {
 	dir := os.Args[1]
+	if len(os.Args) > 4 && os.Args[2] == "complete" {
+		var l, c int
+		fmt.Sscanf(os.Args[3], "%d", &l)
+		fmt.Sscanf(os.Args[4], "%d", &c)
+		probeComplete(dir, l, c)
+		return
+	}
 	if len(os.Args) > 2 && os.Args[2] == "defs" {
 		probeDefs(dir)
 		return
